@@ -19,6 +19,12 @@
 #undef private
 #undef protected
 #include <assemble.h>
+#ifndef C05_STATIC_BUILD
+// Details::deflate is a template living in a .cpp: include it so that it can be instantiated with a recording container
+// (the functions it defines again are identical to the library's; not done when the library objects are linked statically)
+#include <../src/assembleHeadMat.cpp>
+#define C05_HAVE_DEFLATE 1
+#endif
 #include <sensors.h>
 #include <geometry.h>
 #include <mesh.h>
@@ -164,6 +170,9 @@ static FWire footprints(Reader& r) {
         else if (loop==6) { DiagonalBlock blk(m1,integ); if (kind==0) blk.N(1.0,Ssep,S); else blk.N(1.0,Ssep,M); }
         else if (loop==7) { NonDiagonalBlock blk(m1,m2,integ); blk.N(1.0,S,S); }
         else if (loop==8) { NonDiagonalBlock blk(m1,m2,integ); if (kind==0) blk.N(1.0,Ssep,S); else blk.N(1.0,Ssep,M); }
+#ifdef C05_HAVE_DEFLATE
+        else if (loop==9) { for (unsigned i=0;i<n;++i) S.d[S.addr(i,i)] = 1.0+i; Details::deflate(S,L.geo); }
+#endif
         else throw Reader::Malformed();
     } catch (Reader::Malformed&) { throw; } catch (...) { st = status_of_current(); }
     FWire out; out.z.push_back(st); out.z.push_back(g_region.load());
@@ -322,10 +331,65 @@ static int run_cases_mt(const char* path,const std::function<FWire(const std::st
     return 0;
 }
 
+// ------------------------------------------------------------------ op 5: hook H1 -- write footprint of ONE iteration of the
+// three loops of operators.cpp, which take concrete Matrix / Vector (no recording type possible): the hook OM_VERIF_ITER(loop,index,outer) is
+// the first statement of the loop body; the harness's implementation raises for every iteration of the selected
+// loop except the selected one, so only that iteration's statements run; the entries of the target whose bits changed
+// (two fills: 0 and 1) are its write footprint.
+struct SkipIteration {};
+static int g_sel_loop = 0; static unsigned g_sel_index = 0; static std::atomic<long> g_hook_calls(0);
+extern "C" void om_verif_iter(int loop,unsigned index) {
+    ++g_hook_calls;
+    if (loop==g_sel_loop && index!=g_sel_index) throw SkipIteration();
+}
+template <typename RUN>
+static void changed(RUN run,std::vector<ll>& out) {       // run(fill) -> flat result
+    std::vector<char> ch;
+    for (double fill : {0.0,1.0}) {
+        const std::vector<double> v = run(fill);
+        if (ch.empty()) ch.assign(v.size(),0);
+        for (size_t i=0;i<v.size();++i) if (std::memcmp(&v[i],&fill,sizeof(double))!=0) ch[i] = 1;
+    }
+    std::vector<ll> idx; for (size_t i=0;i<ch.size();++i) if (ch[i]) idx.push_back((ll) i);
+    out.push_back((ll) idx.size()); out.insert(out.end(),idx.begin(),idx.end());
+}
+static FWire hooked(Reader& r,FReader& fr) {
+    Loaded L(r.n()); const int loop = (int) r.z(); const size_t mi = r.n(); const int team = (int) r.n();
+    const Mesh& m = mesh_at(L.geo,mi);
+    const unsigned n = L.geo.nb_parameters();
+    omp_set_dynamic(0); omp_set_num_threads(team);
+    const Integrator integ(3,0,0.001);
+    Matrix dm(1,6); for (unsigned c=0;c<6;++c) dm(0,c) = fr.x();
+    const Dipole dip(0,dm); const Vect3 x(dm(0,0)*3+2.0,dm(0,1)*3+1.5,dm(0,2)*3+1.0);
+    FWire out; out.z.push_back(ST_OK); g_hook_calls = 0;
+    auto guarded = [](const std::function<void()>& f) { try { f(); } catch (SkipIteration&) {} };
+    g_sel_loop = loop;
+    if (loop==1) {
+        size_t p = 0;
+        for (const auto& vp : m.vertices()) {
+            g_sel_index = vp->index();
+            out.z.push_back(0); out.z.push_back((ll) p++);
+            changed([&](double fill){ Matrix mat(6,n); mat.set(fill); guarded([&]{ operatorFerguson(x,m,mat,3,1.0); }); return flat(mat); },out.z);
+        }
+    } else if (loop==2 || loop==3) {
+        size_t p = 0;
+        for (const auto& t : m.triangles()) {
+            g_sel_index = t.index();
+            out.z.push_back(0); out.z.push_back((ll) p++);
+            changed([&](double fill){ Vector rhs(n); rhs.set(fill);
+                                      guarded([&]{ if (loop==2) operatorDipolePotDer(dip,m,rhs,1.0,integ); else operatorDipolePot(dip,m,rhs,1.0,integ); });
+                                      std::vector<double> v(n); for (unsigned i=0;i<n;++i) v[i] = rhs(i); return v; },out.z);
+        }
+    } else throw Reader::Malformed();
+    g_sel_loop = 0;
+    out.z.insert(out.z.begin()+1,g_hook_calls.load());
+    return out;
+}
+
 int main(int argc,char** argv) {
     signal(SIGSEGV,on_segv); signal(SIGBUS,on_segv); signal(SIGABRT,on_segv);
     if (argc<2) { fprintf(stderr,"usage: h_c05 cases.txt\n"); return 2; }
-    return run_cases_mt(argv[1],[](const std::string& comp,Reader& r,FReader&) -> FWire {
+    return run_cases_mt(argv[1],[](const std::string& comp,Reader& r,FReader& fr) -> FWire {
         if (comp!="c05") throw Reader::Malformed();
         const ll op = r.z();
         switch (op) {
@@ -334,6 +398,7 @@ int main(int argc,char** argv) {
             case 2: return differential(r);
             case 3: return exceptions(r);
             case 4: return hammer(r);
+            case 5: return hooked(r,fr);
         }
         throw Reader::Malformed();
     });
